@@ -291,7 +291,7 @@ Definition ctl_flush (s : state) : state :=
   let '(s1, retry) := flush_entries (set_sq s []) (sq s) [] in
   set_sq s1 retry.
 
-(* while (*ctl->sqhead != *ctl->sqtail) uv__epoll_ctl_flush(): the retries are
+(* while (sqhead != sqtail) uv__epoll_ctl_flush(): the retries are
    MODs, which are not retried, so two rounds empty the ring *)
 Definition ctl_flush_all (s : state) : state :=
   match sq s with
@@ -362,10 +362,12 @@ Definition api (fdo : nat -> Z) (s : state) (o : op) : state * list event :=
   if aborted s then (s, [ESkip]) else
   match o with
   | OOpen sl =>
-      let fd := fdo (nopen s) in
-      let s := set_nopen s (S (nopen s)) in
-      if (slots s sl =? -1) && (0 <=? fd) && (match fdt s fd with None => true | Some _ => false end)
-      then (set_slots (k_open s fd) (fun x => if Nat.eqb x sl then fd else slots s x), [EOpen sl fd])
+      if slots s sl =? -1 then
+        let fd := fdo (nopen s) in
+        let s := set_nopen s (S (nopen s)) in
+        if (0 <=? fd) && (match fdt s fd with None => true | Some _ => false end)
+        then (set_slots (k_open s fd) (fun x => if Nat.eqb x sl then fd else slots s x), [EOpen sl fd])
+        else (s, [ESkip])
       else (s, [ESkip])
   | ODup src dst =>
       if (slots s dst =? -1) && negb (slots s src =? -1) then
@@ -510,16 +512,34 @@ Fixpoint run_pending (fuel : nat) (fdo : nat -> Z) (beh : nat -> list op) (s : s
     end
   end.
 
-(* uv_run(loop, UV_RUN_NOWAIT) with no timers / idle / prepare / check handles *)
+Definition pending_round (fdo : nat -> Z) (beh : nat -> list op) (s : state) : state * list event :=
+  let s0 := set_pend (set_prun s (pend s)) [] in
+  let '(s1, e1) := run_pending (length (prun s0)) fdo beh s0 in
+  (set_prun s1 [], e1).
+
+(* for (r = 0; r < 8 && !uv__queue_empty(&loop->pending_queue); r++) uv__run_pending(loop) *)
+Fixpoint pending_rounds (n : nat) (fdo : nat -> Z) (beh : nat -> list op) (s : state)
+  : state * list event :=
+  match n with
+  | O => (s, [])
+  | S k =>
+    match pend s with
+    | [] => (s, [])
+    | _ => let '(s1, e1) := pending_round fdo beh s in
+           let '(s2, e2) := pending_rounds k fdo beh s1 in (s2, e1 ++ e2)
+    end
+  end.
+
+(* uv_run(loop, UV_RUN_NOWAIT) of a loop that is alive and has no timers / idle /
+   check handles: uv__run_pending; uv__io_poll(0); up to 8 more uv__run_pending *)
 Definition uv_run (fdo : nat -> Z) (pw : nat -> list (Z * mask)) (beh : nat -> list op) (s : state)
   : state * list event :=
   if aborted s then (s, [ESkip]) else
-  let s0 := set_pend (set_prun s (pend s)) [] in
-  let '(s1, e1) := run_pending (length (prun s0)) fdo beh s0 in
-  let s1 := set_prun s1 [] in
+  let '(s1, e1) := pending_round fdo beh s in
   if aborted s1 then (s1, e1) else
   let '(s2, e2) := io_poll fdo pw beh s1 in
-  (s2, e1 ++ e2).
+  let '(s3, e3) := pending_rounds 8 fdo beh s2 in
+  (s3, e1 ++ e2 ++ e3).
 
 Fixpoint run (fdo : nat -> Z) (pw : nat -> list (Z * mask)) (beh : nat -> list op)
          (s : state) (os : list op) : state * list event :=
